@@ -120,6 +120,15 @@ func genHistoryAction(t *rapid.T, cfg *Config) Scenario {
 		sc.Backend.IgnoreReadErr = true
 		sc.Note = "response_over_limit"
 	}
+	if cfg.OtherOpts != nil && rapid.IntRange(0, 2).Draw(t, "h_other_service") == 0 {
+		// an RPC of the second service, which has options (and possibly a type resolver) of its own
+		ro := genOpts{maxBlob: 40, backendKinds: []string{"ok", "error"}}
+		sc.Client = Client{Form: rapid.SampledFrom([]string{FormConnectUnary, FormGRPC, FormGRPCWeb}).Draw(t, "h_other_form"), Service: routeService, Method: "Get",
+			Codec: rapid.SampledFrom([]string{CodecJSON, CodecJSON, CodecProto}).Draw(t, "h_other_codec")}
+		sc.Client.Msgs = [][]byte{mustMarshal(genMessage(t, msgAll, "h_other_req", msgOpts{maxDepth: 1, maxFields: 4, maxBlob: 20}))}
+		sc.Backend = genBackend(t, &sc.Client, ro)
+		sc.Note = "other_service"
+	}
 	sc.Config = *cfg
 	return sc
 }
